@@ -34,6 +34,8 @@ class Ctx:
 
 def _obj_results(op, cases, pairing):
     out = []
+    if not cases:
+        return out
     c0 = cases[REC] if len(cases) > REC else cases[0]
     for self_l, args in cases:
         if pairing == "other0":
@@ -102,6 +104,52 @@ def numpy_variants(op, cases, tier):
 
     for name, shape in shapes:
         yield {"name": "numpy" + name, "backend": "numpy", "pairing": "paired", "build": mk(shape), "shape": shape}
+    # unusual but legitimate array forms of the receiving array: empty, read-only, Fortran-ordered, fields stored in
+    # reverse order, and scalar arguments given as NumPy scalars / 0-d arrays / Python ints
+    def build_empty():
+        v = _np_vec(selfs, (n,))[:0]
+        a = list(plain)
+        for j in vecpos:
+            a[j] = _np_vec([c[1][j] for c in cases], (n,))[:0]
+        return v, a
+    yield {"name": "numpy(0,):empty", "backend": "numpy", "pairing": "special", "build": build_empty, "shape": (0,), "cases": []}
+
+    def build_readonly():
+        v, a = mk((n,))()
+        for x in [v] + [a[j] for j in vecpos]:
+            x.flags.writeable = False
+        return v, a
+    yield {"name": "numpy(n,):read-only", "backend": "numpy", "pairing": "paired", "build": build_readonly, "shape": (n,)}
+
+    def build_fortran():
+        v, a = mk((2, n // 2))()
+        v = numpy.asfortranarray(numpy.asarray(v).view(numpy.ndarray)).view(type(v))
+        for j in vecpos:
+            a[j] = numpy.asfortranarray(numpy.asarray(a[j]).view(numpy.ndarray)).view(type(a[j]))
+        return v, a
+    yield {"name": "numpy(2,n/2):fortran-order", "backend": "numpy", "pairing": "paired", "build": build_fortran, "shape": (2, n // 2)}
+
+    def build_reversed_fields():
+        def rev(x):
+            base = numpy.asarray(x).view(numpy.ndarray)
+            names = list(base.dtype.names)[::-1]
+            out = numpy.zeros(base.shape, dtype=[(nm, base.dtype[nm]) for nm in names])
+            for nm in names:
+                out[nm] = base[nm]
+            return out.view(type(x))
+        v, a = mk((n,))()
+        v = rev(v)
+        for j in vecpos:
+            a[j] = rev(a[j])
+        return v, a
+    yield {"name": "numpy(n,):fields-in-reverse-order", "backend": "numpy", "pairing": "paired", "build": build_reversed_fields, "shape": (n,)}
+    if any(p is not None and not isinstance(p, str) for p in plain):
+        for kname, conv in (("numpy.float64-scalars", numpy.float64), ("0-d-arrays", lambda x: numpy.array(x, dtype=numpy.float64))):
+            def build_kinds(conv=conv):
+                v, a = mk((n,))()
+                a = [conv(x) if (x is not None and isinstance(x, float)) else x for x in a]
+                return v, a
+            yield {"name": f"numpy(n,) x {kname}", "backend": "numpy", "pairing": "paired", "build": build_kinds, "shape": (n,)}
     # integer-typed columns on the receiving array (the object reference gets the same integers as floats)
     for dt in (numpy.int64, numpy.int32):
         try:
@@ -151,9 +199,9 @@ def awkward_variants(op, cases, tier, salt):
     def rows_of(ls):
         return [l.f64()[0] for l in ls]
 
-    def mkarr(ls, struct, route, extra, spelling=0):
+    def mkarr(ls, struct, route, extra, spelling=0, reverse_fields=False):
         return awk.build(ls[0].system, rows_of(ls), ls[0].momentum, struct, route=route, spelling=spelling,
-                         extra=extra and route != "with_name")
+                         extra=extra and route != "with_name", reverse_fields=reverse_fields)
 
     def mk(sname, route, other="same", selfmode="array", extra=True, spelling=0):
         struct = S[sname]
@@ -257,6 +305,27 @@ def awkward_variants(op, cases, tier, salt):
                 return v, a
             yield {"name": "awkward:flat(events) x scalar-array(jagged)", "backend": "awkward", "pairing": "evt-scalar", "build": build_evt_scalar,
                    "struct": J, "route": "zip", "extra": False, "evt": list_of, "evt_scalar": (gi, perleaf)}
+    # fields given in reverse order (extra field first, temporal ... azimuthal last), and scalar arguments as NumPy
+    # scalars / 0-d arrays
+    for route in ("zip", "with_name"):
+        def build_rev(route=route):
+            v = mkarr(selfs, S["jagged"], route, True, reverse_fields=True)
+            a = list(plain)
+            for j in vecpos:
+                a[j] = mkarr([c[1][j] for c in cases], S["jagged"], route, False, reverse_fields=True)
+            return v, a
+        yield {"name": f"awkward:jagged:{route}:fields-in-reverse-order", "backend": "awkward", "pairing": "paired", "build": build_rev,
+               "struct": S["jagged"], "route": route, "extra": route != "with_name"}
+    if any(p is not None and isinstance(p, float) for p in plain):
+        for kname, conv in (("numpy.float64-scalars", numpy.float64), ("0-d-arrays", lambda x: numpy.array(x, dtype=numpy.float64))):
+            def build_kinds(conv=conv):
+                v = mkarr(selfs, S["jagged"], "zip", True)
+                a = [conv(x) if isinstance(x, float) else x for x in plain]
+                for j in vecpos:
+                    a[j] = mkarr([c[1][j] for c in cases], S["jagged"], "zip", False)
+                return v, a
+            yield {"name": f"awkward:jagged x {kname}", "backend": "awkward", "pairing": "paired", "build": build_kinds,
+                   "struct": S["jagged"], "route": "zip", "extra": True}
     b, st = mk("jagged", "zip")
     yield {"name": "awkward:regular:zip", "backend": "awkward", "pairing": "paired",
            "build": _regular_builder(selfs, cases, plain, vecpos, n), "struct": [list(range(n // 2)), list(range(n // 2, n))],
@@ -502,7 +571,8 @@ def _judge_values(op, dim, res, prop, sig, var, cases, exp, units, gain, out, ex
         if all_obj_ok:
             res.violation(f"{prop}/array-backend-raises-where-object-returns variant={_vclass(name)} op={op.name}",
                           {"sig": sig, "variant": name, "exc": f"{type(exc).__name__}: {exc}"[:300],
-                           "self0": cases[0][0].describe(), "args0": [E.describe_arg(a) for a in cases[0][1]]})
+                           "self0": cases[0][0].describe() if cases else None,
+                           "args0": [E.describe_arg(a) for a in cases[0][1]] if cases else None})
         else:
             res.count("both_raise")
         return
